@@ -105,7 +105,7 @@ Fixpoint all2 {A B} (f : A -> B -> bool) (a : list A) (b : list B) : bool :=
   | _, _ => false
   end.
 
-Definition wrap_impl := wrap_old.
+Definition wrap_impl := wrap.
 
 (* one step: returns None on disagreement *)
 Definition step (stream : list byte) (r : rd) (orc : oracle) (op : cop) : option (rd * oracle) :=
@@ -165,4 +165,23 @@ Definition check (c : c01case) : bool :=
       let sock := skipn p stream in
       let r := wrap_connection (Net sock) (firstn p stream) (Z.to_nat cap0) in
       replay stream (List.length sock) r (oracle_of script) steps
+  end.
+
+(* diagnostics: index of the first step on which model and implementation disagree *)
+Fixpoint first_bad (stream : list byte) (total : nat) (r : rd) (orc : oracle) (steps : list (cop * snap)) (i : N) : option N :=
+  match steps with
+  | [] => None
+  | (op, s) :: rest =>
+      match step stream r orc op with
+      | None => Some i
+      | Some (r', o') => if snap_ok total r' s then first_bad stream total r' o' rest (i + 1)%N else Some (i + 1000)%N
+      end
+  end.
+Definition where_bad (c : c01case) : option N :=
+  match c with
+  | CSeq seed len pre cap0 script steps =>
+      let stream := gen_stream seed len in
+      let p := Z.to_nat pre in
+      let sock := skipn p stream in
+      first_bad stream (List.length sock) (wrap_connection (Net sock) (firstn p stream) (Z.to_nat cap0)) (oracle_of script) steps 0%N
   end.
